@@ -35,6 +35,9 @@ type bkConn struct {
 	cl     *mqtt.Client  // the server-side client object of this connection
 	// C24 bookkeeping: aliases the client has seen bound on this connection
 	aliases map[int]string
+	holdKey string // non-empty while the connecting handler is parked (bk.connhold)
+	holdCh  chan struct{}
+	cid     string
 }
 
 type bkHook struct {
@@ -58,12 +61,31 @@ type bkState struct {
 	// handlers parked at "attach.beforeCleanup" (bk.drophold ... bk.release): client object -> release channel
 	holds  map[*mqtt.Client]chan struct{}
 	parked chan *mqtt.Client
+	// handlers parked right after their read loop (bk.dropholdearly)
+	holdsEarly map[*mqtt.Client]chan struct{}
+	// connecting handlers parked inside attachClient (bk.connhold): "<stage>:<client id>" -> release channel
+	connHolds  map[string]chan struct{}
+	connParked chan string
 }
 
 // yield is installed as mqtt.VerifYield: the new connection's handler waits after its CONNACK until
 // the handler of the connection it took over has finished (a fixed, sequential schedule; other
 // interleavings are explored by the concurrency suites).
 func (b *bkState) yield(point string, cl *mqtt.Client) {
+	if point == "attach.afterRead" && cl != nil {
+		b.tkMu.Lock()
+		ch := b.holdsEarly[cl]
+		b.tkMu.Unlock()
+		if ch != nil {
+			b.parked <- cl
+			<-ch
+		}
+		return
+	}
+	if point == "attach.afterClientsAdd" && cl != nil {
+		b.parkConn("added:" + cl.ID)
+		return
+	}
 	if point == "attach.beforeCleanup" && cl != nil {
 		b.tkMu.Lock()
 		ch := b.holds[cl]
@@ -89,11 +111,36 @@ func (b *bkState) yield(point string, cl *mqtt.Client) {
 	}
 }
 
+// parkConn parks the calling (connecting) handler if a hold is registered under key
+func (b *bkState) parkConn(key string) {
+	b.tkMu.Lock()
+	ch := b.connHolds[key]
+	delete(b.connHolds, key) // the hold is for ONE handler: later connections of the same client id pass
+	b.tkMu.Unlock()
+	if ch != nil {
+		b.connParked <- key
+		<-ch
+	}
+}
+
 func (b *bkState) releaseAll() {
 	b.tkMu.Lock()
 	for cl, ch := range b.holds {
 		close(ch)
 		delete(b.holds, cl)
+	}
+	for cl, ch := range b.holdsEarly {
+		close(ch)
+		delete(b.holdsEarly, cl)
+	}
+	for k := range b.connHolds {
+		delete(b.connHolds, k)
+	}
+	for _, c := range b.conns {
+		if c.holdCh != nil {
+			close(c.holdCh)
+			c.holdCh = nil
+		}
 	}
 	b.tkMu.Unlock()
 }
@@ -114,6 +161,7 @@ func (h *bkHook) ev(s string) {
 	h.st.mu.Unlock()
 }
 func (h *bkHook) OnConnectAuthenticate(cl *mqtt.Client, pk packets.Packet) bool {
+	h.st.parkConn("auth:" + cl.ID)
 	if strings.HasPrefix(h.st.auth, "deny:") {
 		return cl.ID != h.st.auth[5:]
 	}
@@ -476,6 +524,135 @@ func buildClientPacket(ver byte, a []string) []byte {
 	return nil
 }
 
+func bkStartConn(b *bkState, a []string) (*bkConn, string) {
+	// bk.conn <n> <ver> <clean> <clientidhex> [sei= rm= tam= mps= ka= rpi= will=topichex:payloadhex:qos:retain:delay]
+	n := atoi(a[0])
+	ver := byte(atoi(a[1]))
+	m := kvs(a[4:])
+	c1, c2 := net.Pipe()
+	c := &bkConn{n: n, c: c1, ver: ver, done: make(chan struct{}), aliases: map[int]string{}}
+	if old, ok := b.s.Clients.Get(string(unhx(a[3]))); ok && old.StopTime() == 0 {
+		for _, oc := range b.conns {
+			if oc.cl == old {
+				b.tkMu.Lock()
+				b.takeovers[old.ID] = oc.done
+				b.tkMu.Unlock()
+			}
+		}
+	}
+	b.conns[n] = c
+	b.order = append(b.order, n)
+	go b.reader(c)
+	go func() {
+		_ = b.s.EstablishConnection("t", c2)
+		c2.Close()
+		close(c.done)
+	}()
+	// CONNECT
+	pname := "MQTT"
+	if ver == 3 {
+		pname = "MQIsdp"
+	}
+	flags := byte(0)
+	if a[2] == "1" {
+		flags |= 2
+	}
+	var tail []byte
+	if w, ok := m["will"]; ok {
+		p := strings.Split(w, ":")
+		flags |= 4 | byte(atoi(p[2]))<<3
+		if p[3] == "1" {
+			flags |= 32
+		}
+		if ver == 5 {
+			var wp []refProp
+			if atoi(p[4]) > 0 {
+				wp = append(wp, refProp{24, rU32(uint32(atoi(p[4])))})
+			}
+			tail = append(tail, rPropsBytes(wp)...)
+		}
+		tail = append(tail, rStr(string(unhx(p[0])))...)
+		tail = append(tail, rStr(string(unhx(p[1])))...)
+	}
+	body := append(rStr(pname), ver, flags)
+	body = append(body, rU16(kvInt(m, "ka", 60))...)
+	if ver == 5 {
+		var ps []refProp
+		if v, ok := m["sei"]; ok {
+			ps = append(ps, refProp{17, rU32(uint32(atoi(v)))})
+		}
+		if v, ok := m["rm"]; ok {
+			ps = append(ps, refProp{33, rU16(atoi(v))})
+		}
+		if v, ok := m["tam"]; ok {
+			ps = append(ps, refProp{34, rU16(atoi(v))})
+		}
+		if v, ok := m["mps"]; ok {
+			ps = append(ps, refProp{39, rU32(uint32(atoi(v)))})
+		}
+		if v, ok := m["rpi"]; ok {
+			ps = append(ps, refProp{23, []byte{byte(atoi(v))}})
+		}
+		body = append(body, rPropsBytes(ps)...)
+	}
+	body = append(body, rStr(string(unhx(a[3])))...)
+	body = append(body, tail...)
+	if raw, ok := m["raw"]; ok { // a raw first packet instead of CONNECT
+		c1.SetWriteDeadline(time.Now().Add(2 * time.Second))
+		c1.Write(unhx(raw))
+	} else {
+		c1.SetWriteDeadline(time.Now().Add(2 * time.Second))
+		c1.Write(fixedHeader(1<<4, body))
+	}
+	c1.SetWriteDeadline(time.Time{})
+	return c, string(unhx(a[3]))
+}
+
+func bkFinishConn(b *bkState, c *bkConn, id string) string {
+	n := c.n
+	c1 := c.c
+	// wait for CONNACK (then for the session to be fully established) or for the connection to end
+	if !c.waitFor(func(pks []refPacket, eof bool) bool { return eof || len(pks) > 0 }) {
+		return "timeout-connack"
+	}
+	c.mu.Lock()
+	eof := c.eof
+	c.mu.Unlock()
+	if !eof {
+		// barrier: the read loop answers PINGREQ only after attachClient finished establishing
+		c1.SetWriteDeadline(time.Now().Add(2 * time.Second))
+		c1.Write([]byte{12 << 4, 0})
+		c1.SetWriteDeadline(time.Time{})
+		c.waitFor(func(pks []refPacket, eof bool) bool {
+			if eof {
+				return true
+			}
+			for _, p := range pks {
+				if p.render == "PINGRESP" {
+					return true
+				}
+			}
+			return false
+		})
+	} else {
+		select {
+		case <-c.done:
+		case <-time.After(3 * time.Second):
+			return "timeout-handler"
+		}
+	}
+	if !b.settle() {
+		return "timeout-settle"
+	}
+	c.mu.Lock()
+	established := !c.eof
+	c.mu.Unlock()
+	if cl, ok := b.s.Clients.Get(id); ok && cl.StopTime() == 0 && established {
+		c.cl = cl
+	}
+	return b.collectX(n, n)
+}
+
 func init() {
 	runners["bk.new"] = func(st *state, a []string) string {
 		runtime.GOMAXPROCS(1) // one goroutine at a time: handlers switch only where they block
@@ -509,7 +686,8 @@ func init() {
 			s.VerifSetMaximumPacketID(uint32(atoi(v)))
 		}
 		b := &bkState{s: s, conns: map[int]*bkConn{}, aclDeny: map[string]bool{}, pubHook: map[string]string{}, auth: "allow", t0: time.Now().Unix(), takeovers: map[string]chan struct{}{},
-			holds: map[*mqtt.Client]chan struct{}{}, parked: make(chan *mqtt.Client, 16)}
+			holds: map[*mqtt.Client]chan struct{}{}, parked: make(chan *mqtt.Client, 16),
+			holdsEarly: map[*mqtt.Client]chan struct{}{}, connHolds: map[string]chan struct{}{}, connParked: make(chan string, 16)}
 		mqtt.VerifYield = b.yield
 		if v, ok := m["auth"]; ok {
 			b.auth = v
@@ -530,127 +708,61 @@ func init() {
 		return "-"
 	}
 	runners["bk.conn"] = func(st *state, a []string) string {
-		// bk.conn <n> <ver> <clean> <clientidhex> [sei= rm= tam= mps= ka= rpi= will=topichex:payloadhex:qos:retain:delay]
 		b := bkOf(st)
-		n := atoi(a[0])
-		ver := byte(atoi(a[1]))
-		m := kvs(a[4:])
-		c1, c2 := net.Pipe()
-		c := &bkConn{n: n, c: c1, ver: ver, done: make(chan struct{}), aliases: map[int]string{}}
-		if old, ok := b.s.Clients.Get(string(unhx(a[3]))); ok && old.StopTime() == 0 {
-			for _, oc := range b.conns {
-				if oc.cl == old {
-					b.tkMu.Lock()
-					b.takeovers[old.ID] = oc.done
-					b.tkMu.Unlock()
-				}
-			}
-		}
-		b.conns[n] = c
-		b.order = append(b.order, n)
-		go b.reader(c)
-		go func() {
-			_ = b.s.EstablishConnection("t", c2)
-			c2.Close()
-			close(c.done)
-		}()
-		// CONNECT
-		pname := "MQTT"
-		if ver == 3 {
-			pname = "MQIsdp"
-		}
-		flags := byte(0)
-		if a[2] == "1" {
-			flags |= 2
-		}
-		var tail []byte
-		if w, ok := m["will"]; ok {
-			p := strings.Split(w, ":")
-			flags |= 4 | byte(atoi(p[2]))<<3
-			if p[3] == "1" {
-				flags |= 32
-			}
-			if ver == 5 {
-				var wp []refProp
-				if atoi(p[4]) > 0 {
-					wp = append(wp, refProp{24, rU32(uint32(atoi(p[4])))})
-				}
-				tail = append(tail, rPropsBytes(wp)...)
-			}
-			tail = append(tail, rStr(string(unhx(p[0])))...)
-			tail = append(tail, rStr(string(unhx(p[1])))...)
-		}
-		body := append(rStr(pname), ver, flags)
-		body = append(body, rU16(kvInt(m, "ka", 60))...)
-		if ver == 5 {
-			var ps []refProp
-			if v, ok := m["sei"]; ok {
-				ps = append(ps, refProp{17, rU32(uint32(atoi(v)))})
-			}
-			if v, ok := m["rm"]; ok {
-				ps = append(ps, refProp{33, rU16(atoi(v))})
-			}
-			if v, ok := m["tam"]; ok {
-				ps = append(ps, refProp{34, rU16(atoi(v))})
-			}
-			if v, ok := m["mps"]; ok {
-				ps = append(ps, refProp{39, rU32(uint32(atoi(v)))})
-			}
-			if v, ok := m["rpi"]; ok {
-				ps = append(ps, refProp{23, []byte{byte(atoi(v))}})
-			}
-			body = append(body, rPropsBytes(ps)...)
-		}
-		body = append(body, rStr(string(unhx(a[3])))...)
-		body = append(body, tail...)
-		if raw, ok := m["raw"]; ok { // a raw first packet instead of CONNECT
-			c1.SetWriteDeadline(time.Now().Add(2 * time.Second))
-			c1.Write(unhx(raw))
-		} else {
-			c1.SetWriteDeadline(time.Now().Add(2 * time.Second))
-			c1.Write(fixedHeader(1<<4, body))
-		}
-		c1.SetWriteDeadline(time.Time{})
-		// wait for CONNACK (then for the session to be fully established) or for the connection to end
-		if !c.waitFor(func(pks []refPacket, eof bool) bool { return eof || len(pks) > 0 }) {
-			return "timeout-connack"
-		}
-		c.mu.Lock()
-		eof := c.eof
-		c.mu.Unlock()
-		if !eof {
-			// barrier: the read loop answers PINGREQ only after attachClient finished establishing
-			c1.SetWriteDeadline(time.Now().Add(2 * time.Second))
-			c1.Write([]byte{12 << 4, 0})
-			c1.SetWriteDeadline(time.Time{})
-			c.waitFor(func(pks []refPacket, eof bool) bool {
-				if eof {
-					return true
-				}
-				for _, p := range pks {
-					if p.render == "PINGRESP" {
-						return true
-					}
-				}
-				return false
-			})
-		} else {
-			select {
-			case <-c.done:
-			case <-time.After(3 * time.Second):
-				return "timeout-handler"
-			}
+		c, id := bkStartConn(b, a)
+		return bkFinishConn(b, c, id)
+	}
+	// bk.connhold <auth|added> <n> <ver> <clean> <clientidhex> ... : the connecting handler is parked inside the
+	// authentication hook (after the MaximumClients test, before the counter increment) or at the yield
+	// point attach.afterClientsAdd (session inherited and registered, CONNACK not yet written)
+	runners["bk.connhold"] = func(st *state, a []string) string {
+		b := bkOf(st)
+		key := a[0] + ":" + string(unhx(a[4]))
+		hch := make(chan struct{})
+		b.tkMu.Lock()
+		b.connHolds[key] = hch
+		b.tkMu.Unlock()
+		c, _ := bkStartConn(b, a[1:])
+		c.holdKey = key
+		c.holdCh = hch
+		select {
+		case <-b.connParked:
+		case <-c.done: // refused before it reached the hold point
+			b.tkMu.Lock()
+			delete(b.connHolds, key)
+			b.tkMu.Unlock()
+			c.holdKey = ""
+		case <-time.After(3 * time.Second):
+			return "timeout-park"
 		}
 		if !b.settle() {
 			return "timeout-settle"
 		}
-		c.mu.Lock()
-		established := !c.eof
-		c.mu.Unlock()
-		if cl, ok := b.s.Clients.Get(string(unhx(a[3]))); ok && cl.StopTime() == 0 && established {
-			c.cl = cl
+		return b.collectX(c.n, c.n)
+	}
+	runners["bk.dropholdearly"] = func(st *state, a []string) string { // connection lost; handler parked right after its read loop
+		b := bkOf(st)
+		c := b.conns[atoi(a[0])]
+		if c == nil || c.closed {
+			return "no-conn"
 		}
-		return b.collectX(n, n)
+		if c.cl != nil {
+			b.tkMu.Lock()
+			b.holdsEarly[c.cl] = make(chan struct{})
+			b.tkMu.Unlock()
+		}
+		c.closed = true
+		c.c.Close()
+		select {
+		case <-b.parked:
+		case <-c.done:
+		case <-time.After(3 * time.Second):
+			return "timeout-park"
+		}
+		if !b.settle() {
+			return "timeout-settle"
+		}
+		return b.collect(-1)
 	}
 	runners["bk.send"] = func(st *state, a []string) string { // bk.send <n> TYPE k=v...
 		b := bkOf(st)
@@ -742,9 +854,35 @@ func init() {
 		if c == nil {
 			return "no-conn"
 		}
+		if c.holdKey != "" { // a connecting handler parked inside attachClient
+			id := c.holdKey[strings.IndexByte(c.holdKey, ':')+1:]
+			if strings.HasPrefix(c.holdKey, "auth:") {
+				// the released handler may take over a live connection of the same client id: its CONNACK is
+				// followed by a wait for the old handler (same fixed schedule as bk.conn)
+				if old, ok := b.s.Clients.Get(id); ok && old.StopTime() == 0 {
+					for _, oc := range b.conns {
+						if oc.cl == old {
+							b.tkMu.Lock()
+							b.takeovers[old.ID] = oc.done
+							b.tkMu.Unlock()
+						}
+					}
+				}
+			}
+			c.holdKey = ""
+			if c.holdCh != nil {
+				close(c.holdCh)
+				c.holdCh = nil
+			}
+			return bkFinishConn(b, c, id)
+		}
 		b.tkMu.Lock()
 		ch := b.holds[c.cl]
 		delete(b.holds, c.cl)
+		if ch == nil {
+			ch = b.holdsEarly[c.cl]
+			delete(b.holdsEarly, c.cl)
+		}
 		b.tkMu.Unlock()
 		if ch != nil {
 			close(ch)
